@@ -288,7 +288,14 @@ private:
             entries = 1u << this->_info._bits_per_pixel;
         }
 
-		this->_palette.resize( entries, rgba8_pixel_t(0,0,0,0) );
+        // see reader_backend::read_palette
+        int const max_entries = 1 << this->_info._bits_per_pixel;
+
+        io_error_if( entries < 0 || entries > max_entries
+                   , "Invalid number of colors in BMP palette."
+                   );
+
+        this->_palette.resize( max_entries, rgba8_pixel_t(0,0,0,0) );
 
         for( int i = 0; i < entries; ++i )
         {
